@@ -22,10 +22,11 @@ type Workload struct {
 	specTypes   []string // custom query types registered by the workload
 	govProposed int
 	busy        map[int]bool
+	movedStake  map[string]bool // delegators that sent an undelegate / redelegate
 }
 
 func newWorkload(g *Gen) *Workload {
-	w := &Workload{g: g, r: g.rWork}
+	w := &Workload{g: g, r: g.rWork, movedStake: map[string]bool{}}
 	w.ops = map[string]func(h int64) (*Intent, bool){
 		"tip":             w.opTip,
 		"create_reporter": w.opCreateReporter,
@@ -233,8 +234,8 @@ func (w *Workload) someQuery(forTip bool) string {
 	case 3:
 		return "raw:" + fmt.Sprintf("%x", []byte{1, 2, 3})
 	case 4:
-		if len(w.specTypes) > 0 {
-			return w.customQuery(Pick(r, w.specTypes))
+		if sp := w.wordSpecs(""); len(sp) > 0 {
+			return w.customQuery(Pick(r, sp).Type)
 		}
 	}
 	return w.someSpotQuery()
@@ -266,7 +267,7 @@ func (w *Workload) commissionRate() string {
 	if w.g.Avoid {
 		return Pick(w.r, []string{"0", "0.05", "0.1", "0.25", "0.5", "1", "0.000000000000000001", "0.333333333333333333"})
 	}
-	return Pick(w.r, []string{"0", "0.05", "0.1", "0.25", "0.5", "1", "0.000000000000000001", "0.333333333333333333", "2", "5", "50", "100", "100.000000000000000001", "-0.1"})
+	return Pick(w.r, []string{"0", "0.05", "0.1", "0.25", "0.5", "1", "0.000000000000000001", "0.333333333333333333", "2", "5", "50", "100", "100.000000000000000001", "-0.1"}) // incl. rates outside [0,1]
 }
 
 func (w *Workload) opSelectReporter(h int64) (*Intent, bool) {
@@ -431,9 +432,9 @@ func (w *Workload) canonName(q string) string {
 			return fmt.Sprintf("dep:%d", id)
 		}
 	}
-	for _, t := range w.specTypes {
-		if eqBytes(qd, QueryDataOf(w.customQuery(t))) {
-			return w.customQuery(t)
+	for _, sp := range w.wordSpecs("") {
+		if eqBytes(qd, QueryDataOf(w.customQuery(sp.Type))) {
+			return w.customQuery(sp.Type)
 		}
 	}
 	return q
@@ -542,6 +543,7 @@ func (w *Workload) opUndelegate(h int64) (*Intent, bool) {
 	if !ok {
 		return nil, false
 	}
+	w.movedStake[string(w.acc().Addr(a))] = true
 	return w.newIntent(a, MsgSpec{K: "undelegate", Val: v, N: w.stakeAmount(amt)}), true
 }
 
@@ -550,6 +552,7 @@ func (w *Workload) opRedelegate(h int64) (*Intent, bool) {
 	if !ok {
 		return nil, false
 	}
+	w.movedStake[string(w.acc().Addr(a))] = true
 	return w.newIntent(a, MsgSpec{K: "redelegate", Val: v, Val2: w.randomVal(), N: w.stakeAmount(amt)}), true
 }
 
